@@ -84,6 +84,54 @@ func c05NilRouterCfg(rnd *vRand, k int) c01Cfg {
 	return cfg
 }
 
+// the restart scenario of corpus/notes/c05_restart_pipelined_payload.txt on three equal-stake nodes (every
+// threshold needs all three): benign delivery of all proposals, but the victim's validation of the winning
+// payload is still in flight when its filter timeout fires (soft vote: persisted with Filled, !Assembled); the
+// validation completes in memory, the process crashes before the next attest and restarts from the crash
+// database.  Returns the simulator at the synchrony point.
+func c05RestartRun(ver protocol.ConsensusVersion, rnd *vRand, st *c01Stats, k int) *c01Sim {
+	cfg := c01Cfg{n: 3, nb: 0, rounds: 1, r0: round(5 + rnd.Intn(20)), mode: "restart", stake: []uint64{334, 333, 333},
+		groups: []int{0, 0, 0}, w: map[string]int{"adv": 0}, crashes: 1}
+	s := c01NewSim(ver, rnd, cfg, st)
+	s.runIdx = k
+	s.hold = map[int]bool{0: true, 1: true, 2: true}
+	quiesce := func() {
+		for guard := 0; guard < 20000; guard++ {
+			progressed := false
+			for j := range s.nodes {
+				if s.deliverLocal(j) || s.deliverNet(j) {
+					progressed = true
+				}
+			}
+			if !progressed {
+				return
+			}
+		}
+	}
+	quiesce()
+	winner := s.nodes[0].m.rr.Children[cfg.r0].Children[0].ProposalTracker.Freezer.Lowest.R.Proposal
+	victim := 0
+	for j, nd := range s.nodes {
+		if nd.id != vsmSnd(winner.OriginalProposer) {
+			victim = j
+			break
+		}
+	}
+	for j := range s.nodes {
+		if j != victim {
+			delete(s.hold, j)
+		}
+	}
+	quiesce()
+	s.timeout(victim) // filter timeout: soft vote, persisted while the validation is in flight
+	delete(s.hold, victim)
+	quiesce() // the validation result arrives (memory only)
+	s.crash(victim)
+	quiesce()
+	s.cfg.syncAfter = s.step
+	return s
+}
+
 func (s *c01Sim) c05StaleBundles() int {
 	n := 0
 	r := s.cfg.r0
@@ -166,23 +214,33 @@ func TestVerifC05(t *testing.T) {
 	defer out.Close()
 	st := c01NewStats()
 	vers := c01Versions()
-	committed, total, nilPanics, maxLag, maxStepAfter, staleRuns, lateNodes, caught := 0, 0, 0, 0, 0, 0, 0, 0
+	committed, total, nilPanics, maxLag, maxStepAfter, staleRuns, lateNodes, caught, restartRuns, restartStuck := 0, 0, 0, 0, 0, 0, 0, 0, 0, 0
 	var worstTime time.Duration
 	hist := map[int]int{}
 	for k := 0; k < n; k++ {
 		var cfg c01Cfg
-		if k%10 == 9 {
-			cfg = c05NilRouterCfg(rnd, k)
-		} else {
-			cfg = c05Cfg(rnd, k)
-		}
 		c01Debug = false
 		dbg := os.Getenv("VERIF_C01_DEBUG") != "" && vEnvInt("VERIF_C01_DEBUGRUN", -1) == k
-		s := c01NewSim(vers[k%len(vers)], rnd, cfg, st)
-		s.runIdx = k
+		var s *c01Sim
+		limit := c05Limit
+		if k%100 == 37 {
+			// tagged crash scenario (recorded finding c05_restart_loses_pipelined_payload)
+			s = c05RestartRun(vers[k%len(vers)], rnd, st, k)
+			cfg = s.cfg
+			limit = 12 * time.Minute
+			restartRuns++
+		} else {
+			if k%10 == 9 {
+				cfg = c05NilRouterCfg(rnd, k)
+			} else {
+				cfg = c05Cfg(rnd, k)
+			}
+			s = c01NewSim(vers[k%len(vers)], rnd, cfg, st)
+			s.runIdx = k
+			s.runAsync(cfg.syncAfter, 1<<30)
+		}
 		st.runs++
 		st.modes[cfg.mode]++
-		s.runAsync(cfg.syncAfter, 1<<30)
 		stale := 0
 		if cfg.nilRouter {
 			stale = s.c05StaleBundles()
@@ -211,7 +269,7 @@ func TestVerifC05(t *testing.T) {
 				fmt.Fprintf(os.Stderr, "SYNC node %d done=%v (%d,%d,%d) nap=%v dl=%v frd=%v zero=%v now=%v\n", nd.id, nd.done, pl.Round, pl.Period, pl.Step, pl.Napping, pl.Deadline.Duration, pl.FastRecoveryDeadline, nd.zero, s.now)
 			}
 		}
-		s.runSync(time.Hour+c05Limit, 60000)
+		s.runSync(time.Hour+limit, 60000)
 		if s.failed != "" {
 			t.Fatalf("c05 run %d (%s): %s", k, cfg.mode, s.failed)
 		}
@@ -239,6 +297,9 @@ func TestVerifC05(t *testing.T) {
 				caught++
 			} else {
 				lateNodes++
+				if cfg.mode == "restart" {
+					restartStuck++
+				}
 			}
 			if int(nd.maxStepNew) > maxStepAfter {
 				maxStepAfter = int(nd.maxStepNew)
@@ -253,7 +314,7 @@ func TestVerifC05(t *testing.T) {
 	vStats(map[string]interface{}{
 		"runs": st.runs, "nodes": total, "nodes_committed": committed, "nodes_not_committed": lateNodes, "nodes_caught_up_through_ledger": caught,
 		"ensure_period_minus_max_period_at_sync_histogram": hist, "max_periods_after_sync": maxLag, "max_step_in_a_period_entered_after_sync": maxStepAfter,
-		"nil_router_panics_after_sync": nilPanics, "stale_cert_bundle_runs": staleRuns, "worst_virtual_seconds_to_finish": int(worstTime / time.Second),
+		"nil_router_panics_after_sync": nilPanics, "stale_cert_bundle_runs": staleRuns, "restart_scenario_runs": restartRuns, "restart_scenario_nodes_stuck": restartStuck, "worst_virtual_seconds_to_finish": int(worstTime / time.Second),
 		"submitTop_calls": st.submits, "go_panics": st.panics, "panic_classes": st.panicClasses, "crash_restores": st.crashes, "modes": st.modes,
 		"timeouts": st.timeouts, "fast_timeouts": st.fasts,
 	})
